@@ -87,7 +87,10 @@ func NewBTWorld(r *Run, engine string, clk *Clock, dir string) *BTWorld {
 		w.srv = srv
 		w.svc = srv.VerifService()
 	case engLdbMemGRPC:
-		opt.Storage = yStorage{bttest.LeveldbMemStorage{}, &w.rows}
+		// the transport world also runs the engine WITHOUT the harness's pass-through wrapper:
+		// optional interfaces of the engine (anything the server discovers by type assertion on
+		// Storage / Rows) are hidden by a wrapper, and code paths behind them would never run
+		opt.Storage = bttest.LeveldbMemStorage{}
 		srv, err := bttest.NewServerWithOptions("127.0.0.1:0", opt)
 		if err != nil {
 			harnessErr("NewServerWithOptions: %v", err)
